@@ -1,0 +1,130 @@
+//go:build verif
+
+// Contracts for the deductive verifier in /verif (govc); comments only.
+package socks5
+
+//@ pred reqOK(req) := req != nil && req.rw != nil && req.rw.Reader != nil && req.rw.Writer != nil && whole(req.rw) && whole(req.rw.Reader) && whole(req.rw.Writer)
+
+//@ func (*Request).readBytes(req, n) (b, err)
+//@   serves C17 C10
+//@   requires reqOK(req) && 0 <= n && n <= 255
+//@   modifies req.rw.Reader.in, blocked
+//@   ghost IN := req.rw.Reader.in
+//@   ensures [C17:next_n_bytes] err == nil ==> len(b) == n && len(IN) >= n && seq(b) == sub(IN, 0, n) && req.rw.Reader.in == sub(IN, n, len(IN)) && fresh(b)
+//@   ensures err != nil ==> b == nil
+//@   ensures reqOK(req) && unchanged(req.rw)
+
+//@ func (*Request).readByteVerify(req, descr, expected) (err)
+//@   serves C17 C10
+//@   requires reqOK(req)
+//@   modifies req.rw.Reader.in, blocked
+//@   ghost IN := req.rw.Reader.in
+//@   ensures [C17:verified_byte] err == nil ==> len(IN) >= 1 && at(IN, 0) == expected && req.rw.Reader.in == sub(IN, 1, len(IN))
+//@   ensures [C17:mismatch_consumes_one] err != nil ==> req.rw.Reader.in == IN || (len(IN) >= 1 && at(IN, 0) != expected && req.rw.Reader.in == sub(IN, 1, len(IN)))
+//@   ensures reqOK(req) && unchanged(req.rw)
+
+//@ func (*Request).flushBuffers(req) (err)
+//@   serves C17 C10
+//@   requires reqOK(req)
+//@   modifies req.rw.Writer.nflush, blocked
+//@   ensures [C17:no_trailing] err == nil ==> req.rw.Writer.nflush == old(req.rw.Writer.nflush) + 1
+//@   ensures reqOK(req) && unchanged(req.rw, req.rw.Reader.in, req.rw.Writer.out)
+
+//@ func (*Request).Reply(req, code) (err)
+//@   serves C17 C10
+//@   requires reqOK(req)
+//@   modifies req.rw.Writer.out, req.rw.Writer.nflush, blocked
+//@   ghost OUT := req.rw.Writer.out
+//@   ensures [C17:reply_bytes] err == nil ==> len(req.rw.Writer.out) == len(OUT) + 10 && sub(req.rw.Writer.out, 0, len(OUT)) == OUT
+//@       && at(req.rw.Writer.out, len(OUT)) == 5 && at(req.rw.Writer.out, len(OUT) + 1) == code && at(req.rw.Writer.out, len(OUT) + 2) == 0 && at(req.rw.Writer.out, len(OUT) + 3) == 1
+//@       && at(req.rw.Writer.out, len(OUT) + 4) == 0 && at(req.rw.Writer.out, len(OUT) + 5) == 0 && at(req.rw.Writer.out, len(OUT) + 6) == 0 && at(req.rw.Writer.out, len(OUT) + 7) == 0 && at(req.rw.Writer.out, len(OUT) + 8) == 0 && at(req.rw.Writer.out, len(OUT) + 9) == 0
+//@   ensures [C17:reply_prefix] len(OUT) <= len(req.rw.Writer.out) && len(req.rw.Writer.out) <= len(OUT) + 10 && sub(req.rw.Writer.out, 0, len(OUT)) == OUT
+//@       && (len(req.rw.Writer.out) > len(OUT) ==> at(req.rw.Writer.out, len(OUT)) == 5) && (len(req.rw.Writer.out) > len(OUT) + 1 ==> at(req.rw.Writer.out, len(OUT) + 1) == code)
+//@   ensures reqOK(req) && unchanged(req.rw, req.rw.Reader.in)
+
+//@ func (*Request).negotiateAuth(req) (method, err)
+//@   serves C17 C10
+//@   requires reqOK(req)
+//@   modifies req.rw.Reader.in, req.rw.Writer.out, req.rw.Writer.nflush, blocked
+//@   ghost IN := req.rw.Reader.in
+//@   ghost OUT := req.rw.Writer.out
+//@   assert_at bytes.IndexByte#1 [C17:hint_methods_are_input] len(arg0) == at(IN, 1) && forall(j, 2, 2 + at(IN, 1), withpat(at(IN, j) == at(seq(arg0), j - 2), at(IN, j)))
+//@   ensures [C17:method_choice] err == nil ==> len(IN) >= 2 && len(IN) >= 2 + at(IN, 1) && at(IN, 0) == 5
+//@       && (method == 2 || method == 0 || method == 255)
+//@   ensures [C17:method_2_if_offered] err == nil && method != 2 ==> forall(j, 2, 2 + at(IN, 1), at(IN, j) != 2)
+//@   ensures [C17:method_0_only_if_offered] err == nil && method == 255 ==> forall(j, 2, 2 + at(IN, 1), at(IN, j) != 0)
+//@   ensures [C17:method_reply] err == nil ==> len(req.rw.Writer.out) == len(OUT) + 2 && sub(req.rw.Writer.out, 0, len(OUT)) == OUT && at(req.rw.Writer.out, len(OUT)) == 5 && at(req.rw.Writer.out, len(OUT) + 1) == method
+//@   ensures [C17:consumed_exactly] err == nil ==> req.rw.Reader.in == sub(IN, 2 + at(IN, 1), len(IN))
+//@   ensures reqOK(req) && unchanged(req.rw)
+
+//@ func (*Request).readCommand(req) (err)
+//@   serves C17 C10
+//@   requires reqOK(req)
+//@   modifies req.Target, req.rw.Reader.in, req.rw.Writer.out, req.rw.Writer.nflush, blocked
+//@   ghost IN := req.rw.Reader.in
+//@   ghost OUT := req.rw.Writer.out
+//@   ensures [C17:request_header] err == nil ==> len(IN) >= 4 && at(IN, 0) == 5 && at(IN, 1) == 1 && at(IN, 2) == 0 && (at(IN, 3) == 1 || at(IN, 3) == 3 || at(IN, 3) == 4)
+//@   ensures [C17:target_ipv4] err == nil && at(IN, 3) == 1 ==> len(IN) >= 10 && req.Target == HOSTPORT(IPSTR(V4IN6(at(IN, 4), at(IN, 5), at(IN, 6), at(IN, 7))), at(IN, 8) * 256 + at(IN, 9)) && req.rw.Reader.in == sub(IN, 10, len(IN))
+//@   ensures [C17:target_domain] err == nil && at(IN, 3) == 3 ==> at(IN, 4) > 0 && len(IN) >= 7 + at(IN, 4) && req.Target == HOSTPORT(sub(IN, 5, 5 + at(IN, 4)), at(IN, 5 + at(IN, 4)) * 256 + at(IN, 6 + at(IN, 4))) && req.rw.Reader.in == sub(IN, 7 + at(IN, 4), len(IN))
+//@   ensures [C17:target_ipv6] err == nil && at(IN, 3) == 4 ==> len(IN) >= 22 && req.Target == HOSTPORT(cat("[", IPSTR(sub(IN, 4, 20)), "]"), at(IN, 20) * 256 + at(IN, 21)) && req.rw.Reader.in == sub(IN, 22, len(IN))
+//@   ensures [C17:no_reply_on_success] err == nil ==> req.rw.Writer.out == OUT
+//@   ensures [C17:reply_on_error] len(req.rw.Writer.out) <= len(OUT) + 10 && sub(req.rw.Writer.out, 0, len(OUT)) == OUT && (len(req.rw.Writer.out) > len(OUT) ==> err != nil && at(req.rw.Writer.out, len(OUT)) == 5)
+//@   ensures [C17:unsupported_command_reply] len(IN) >= 2 && at(IN, 0) == 5 && at(IN, 1) != 1 && len(req.rw.Reader.in) == len(IN) - 2 && len(req.rw.Writer.out) > len(OUT) + 1 ==> at(req.rw.Writer.out, len(OUT) + 1) == 7
+//@   ensures [C17:unsupported_atyp_reply] len(IN) >= 4 && at(IN, 0) == 5 && at(IN, 1) == 1 && at(IN, 2) == 0 && at(IN, 3) != 1 && at(IN, 3) != 3 && at(IN, 3) != 4 && len(req.rw.Reader.in) == len(IN) - 4 && len(req.rw.Writer.out) > len(OUT) + 1 ==> at(req.rw.Writer.out, len(OUT) + 1) == 8
+//@   ensures reqOK(req) && unchanged(req.rw)
+
+//@ func parseClientParameters(argStr) (args, err)
+//@   serves C17 C10
+//@   ensures [C17:args_or_error] (err == nil) == (args != nil)
+//@   ensures err == nil ==> fresh(args)
+//@   loop 1 invariant -1 <= rangeindex && rangeindex < len(argStr) && len(argStr) > 0
+//@   loop 1 invariant args != nil && fresh(args) && (acc == nil || fresh(acc)) && 0 <= len(acc)
+
+//@ func (*Request).authRFC1929(req) (err)
+//@   serves C17 C10
+//@   requires reqOK(req)
+//@   modifies req.Args, req.rw.Reader.in, req.rw.Writer.out, req.rw.Writer.nflush, blocked
+//@   ghost IN := req.rw.Reader.in
+//@   ghost OUT := req.rw.Writer.out
+//@   assert_at parseClientParameters#1 [C17:args_are_uname_passwd] len(IN) >= 3 + at(IN, 1) + at(IN, 2 + at(IN, 1)) && arg0 == cat(sub(IN, 2, 2 + at(IN, 1)), ite(at(IN, 2 + at(IN, 1)) == 1 && at(IN, 3 + at(IN, 1)) == 0, "", sub(IN, 3 + at(IN, 1), 3 + at(IN, 1) + at(IN, 2 + at(IN, 1)))))
+//@   ensures [C17:auth_message] err == nil ==> len(IN) >= 3 + at(IN, 1) + at(IN, 2 + at(IN, 1)) && at(IN, 0) == 1 && at(IN, 1) >= 1 && at(IN, 2 + at(IN, 1)) >= 1
+//@       && req.rw.Reader.in == sub(IN, 3 + at(IN, 1) + at(IN, 2 + at(IN, 1)), len(IN)) && req.Args != nil
+//@   ensures [C17:auth_reply] len(OUT) <= len(req.rw.Writer.out) && len(req.rw.Writer.out) <= len(OUT) + 2 && sub(req.rw.Writer.out, 0, len(OUT)) == OUT
+//@       && (len(req.rw.Writer.out) > len(OUT) ==> at(req.rw.Writer.out, len(OUT)) == 1)
+//@       && (len(req.rw.Writer.out) > len(OUT) + 1 ==> at(req.rw.Writer.out, len(OUT) + 1) == 0 || at(req.rw.Writer.out, len(OUT) + 1) == 1)
+//@       && (err == nil ==> len(req.rw.Writer.out) == len(OUT) + 2 && at(req.rw.Writer.out, len(OUT) + 1) == 0)
+//@   ensures [C17:success_only_after_valid_auth] len(req.rw.Writer.out) > len(OUT) + 1 && at(req.rw.Writer.out, len(OUT) + 1) == 0 ==> len(IN) >= 3 + at(IN, 1) + at(IN, 2 + at(IN, 1)) && at(IN, 0) == 1 && at(IN, 1) >= 1 && at(IN, 2 + at(IN, 1)) >= 1 && req.Args != nil
+//@   ensures reqOK(req) && unchanged(req.rw)
+
+//@ func (*Request).authenticate(req, method) (err)
+//@   serves C17 C10
+//@   requires reqOK(req)
+//@   modifies req.Args, req.rw.Reader.in, req.rw.Writer.out, req.rw.Writer.nflush, blocked
+//@   ghost IN := req.rw.Reader.in
+//@   ghost OUT := req.rw.Writer.out
+//@   ensures [C17:only_negotiated_methods] err == nil ==> method == 0 || method == 2
+//@   ensures [C17:none_consumes_nothing] err == nil && method == 0 ==> req.rw.Reader.in == IN && req.rw.Writer.out == OUT && req.Args == old(req.Args)
+//@   ensures [C17:userpass_runs_rfc1929] err == nil && method == 2 ==> len(IN) >= 3 + at(IN, 1) + at(IN, 2 + at(IN, 1)) && at(IN, 0) == 1 && at(IN, 1) >= 1 && at(IN, 2 + at(IN, 1)) >= 1
+//@       && req.rw.Reader.in == sub(IN, 3 + at(IN, 1) + at(IN, 2 + at(IN, 1)), len(IN)) && req.Args != nil
+//@       && len(req.rw.Writer.out) == len(OUT) + 2 && sub(req.rw.Writer.out, 0, len(OUT)) == OUT && at(req.rw.Writer.out, len(OUT)) == 1 && at(req.rw.Writer.out, len(OUT) + 1) == 0
+//@   ensures reqOK(req) && unchanged(req.rw)
+
+// the CONNECT request starting at offset K of the client's byte stream names exactly tgt
+//@ pred cmdAt(IN, K, tgt) := len(IN) >= K + 4 && at(IN, K) == 5 && at(IN, K + 1) == 1 && at(IN, K + 2) == 0 && (at(IN, K + 3) == 1 || at(IN, K + 3) == 3 || at(IN, K + 3) == 4)
+//@     && (at(IN, K + 3) == 1 ==> tgt == HOSTPORT(IPSTR(V4IN6(at(IN, K + 4), at(IN, K + 5), at(IN, K + 6), at(IN, K + 7))), at(IN, K + 8) * 256 + at(IN, K + 9)))
+//@     && (at(IN, K + 3) == 3 ==> tgt == HOSTPORT(sub(IN, K + 5, K + 5 + at(IN, K + 4)), at(IN, K + 5 + at(IN, K + 4)) * 256 + at(IN, K + 6 + at(IN, K + 4))))
+//@     && (at(IN, K + 3) == 4 ==> tgt == HOSTPORT(cat("[", IPSTR(sub(IN, K + 4, K + 20)), "]"), at(IN, K + 20) * 256 + at(IN, K + 21)))
+// the RFC 1929 message starting at offset A is well formed
+//@ pred authAt(IN, A) := len(IN) >= A + 3 + at(IN, A + 1) + at(IN, A + 2 + at(IN, A + 1)) && at(IN, A) == 1 && at(IN, A + 1) >= 1 && at(IN, A + 2 + at(IN, A + 1)) >= 1
+
+//@ func Handshake(conn) (req, err)
+//@   serves C17 C10
+//@   requires conn != nil
+//@   modifies conn.deadline, conn.rdeadline, blocked, now
+//@   ghost IN := STREAM(payload(conn), conn.nreads)
+//@   ensures [C17:request_or_error] (err == nil) == (req != nil)
+//@   ensures [C17:greeting] err == nil ==> reqOK(req) && len(IN) >= 2 + at(IN, 1) && at(IN, 0) == 5 && len(req.rw.Writer.out) >= 2 && at(req.rw.Writer.out, 0) == 5 && (at(req.rw.Writer.out, 1) == 0 || at(req.rw.Writer.out, 1) == 2)
+//@   ensures [C17:method_2_preferred] err == nil && at(req.rw.Writer.out, 1) != 2 ==> forall(j, 2, 2 + at(IN, 1), at(IN, j) != 2)
+//@   ensures [C17:no_auth_request] err == nil && at(req.rw.Writer.out, 1) == 0 ==> len(req.rw.Writer.out) == 2 && cmdAt(IN, 2 + at(IN, 1), req.Target)
+//@   ensures [C17:userpass_request] err == nil && at(req.rw.Writer.out, 1) == 2 ==> len(req.rw.Writer.out) == 4 && at(req.rw.Writer.out, 2) == 1 && at(req.rw.Writer.out, 3) == 0 && req.Args != nil && authAt(IN, 2 + at(IN, 1))
+//@       && cmdAt(IN, 5 + at(IN, 1) + at(IN, 3 + at(IN, 1)) + at(IN, 4 + at(IN, 1) + at(IN, 3 + at(IN, 1))), req.Target)
